@@ -14,6 +14,11 @@ PairFailing(u, v, su, sv, lu, lv) ==     \* su, sv: stems lists; lu, lv: seriali
   \cup Clause(Under(u, v) => LPre(lu, lv), "ancestor-implies-string-prefix")
   \cup Clause(LPre(CleanStems(su), CleanStems(sv)) => Under(u, v), "stem-prefix-implies-ancestor")
 
+\* Known limit of the suffix-aware format (open finding KF-C13-1): the public suffix is ONE stem, so when v's host has a longer
+\* public suffix than its ancestor u's ('uk' -> 'co.uk', 'kawasaki.jp' -> 'x.kawasaki.jp') u's host stems cannot be a prefix of v's.
+SuffixBoundaryMoves(u, v, m) ==
+  m /\ Under(u, v) /\ SufLen(HostLabelsOf(u)) # SufLen(HostLabelsOf(v))
+
 \* stems of every URL of the universe in both modes, computed once
 U == {a \in Universe : InUniverse(a)}
 StemTab == [a \in U |-> [m \in BOOLEAN |-> LruStems(RenderA(a), m)]]
@@ -25,6 +30,10 @@ Examine == phase = 0 /\ phase' = 1 /\ UNCHANGED <<cur, sa>>          \* (a step,
 Next == Examine
 Spec == Init /\ [][Next]_vars
 Hierarchy == phase = 1 =>
-             \A w \in U : PairFailing(cur, w, StemTab[cur][sa], StemTab[w][sa],
-                                      LruSer(CleanStems(StemTab[cur][sa])), LruSer(CleanStems(StemTab[w][sa]))) = {}
+             \A w \in U : \/ SuffixBoundaryMoves(cur, w, sa)
+                          \/ PairFailing(cur, w, StemTab[cur][sa], StemTab[w][sa],
+                                         LruSer(CleanStems(StemTab[cur][sa])), LruSer(CleanStems(StemTab[w][sa]))) = {}
+\* ... and the finding is exactly that: on the model every such pair does break the forward clause
+MovesBreaks == phase = 1 =>
+             \A w \in U : SuffixBoundaryMoves(cur, w, sa) => ~LPre(CleanStems(StemTab[cur][sa]), CleanStems(StemTab[w][sa]))
 =============================================================================
